@@ -45,6 +45,7 @@ TOUCH_BAND = 30.0    # |true distance| <= TOUCH_BAND*ccd_tolerance: mj_geomDista
 NON_CCD = {('plane', 'sphere'), ('plane', 'capsule'), ('plane', 'cylinder'), ('plane', 'box'), ('plane', 'ellipsoid'),
            ('sphere', 'sphere'), ('sphere', 'capsule'), ('sphere', 'cylinder'), ('sphere', 'box'),
            ('capsule', 'capsule'), ('capsule', 'box'), ('box', 'box')}     # pairs with a closed-form collider
+TOL_FLOOR = 6e-8      # x scene scale: below this ccd_tolerance the GJK stopping test is under double rounding (see test())
 SMOOTH = ('sphere', 'capsule', 'ellipsoid')
 DEEP = 0.5           # penetration deeper than this fraction of the smaller size: only invariants (depth not unique)
 
@@ -96,7 +97,7 @@ def scene_strategy():
 DELTA_CLASSES = ('pen-shallow', 'pen-shallow', 'pen-deep', 'touch', 'in-margin', 'in-margin', 'edge', 'beyond')
 
 
-def main(ck):
+def main(ck, only_case=None, only_req=None):
   lib = ck.lib('rel')
   E = lib.enums
   ck.rule = ('Hypothesis draws geom types, size scale (1e-2..1e1), margin/gap class, ccd tolerance, multiccd, a seed; '
@@ -139,6 +140,7 @@ def main(ck):
     else:
       res = gg.eval_pose(lib, m, d, PA, gg.mat2quat(RA), qpos, distmax)
     res['distmax'] = distmax
+    res['sc'] = sc
     return res
 
   def test(case):
@@ -239,6 +241,16 @@ def main(ck):
         check_pose(ck, res, S, M, G, tol_ccd, info, calib, stats, soft, True)
       except SkipPose:
         continue
+      if soft and tol_ccd < TOL_FLOOR * res['sc']:
+        # Input rule: GJK stops when the duality gap x.(x - s) < 0.5*ccd_tolerance^2. x and s are differences of WORLD
+        # coordinates, so the gap carries a rounding error of about 8*eps*sc^2 (sc = sizes + centre distance + |position|);
+        # for ccd_tolerance < sqrt(16*eps)*sc = 6e-8*sc the test cannot be resolved, GJK runs on into degenerate simplices
+        # and stops by stagnation. Measured on one geometry: errors up to 7e-4 at tolerance 1e-8 in 50-80 % of 1e-12..1e-7
+        # perturbations, 1e-13 at tolerance 1e-6. Same root cause as the listed rounding-sensitivity finding.
+        ck.label('ccd_tolerance-below-rounding-level(known finding)')
+        finding('gjk-translation-variant', 'ccd_tolerance %.0e is below the rounding level 6e-8*scale(%.3g) of the GJK stopping '
+                'test: ' % (tol_ccd, res['sc']) + soft[0][0], info)
+        soft = []
       if soft:
         # FINDING F2 (see report): GJK occasionally stagnates with an error far above ccd_tolerance, and whether it
         # does depends on the last bits of the coordinates. The same configuration is re-evaluated after rigid
@@ -661,11 +673,33 @@ def main(ck):
   # deterministic probe of the known EPA crash (exact reproducer, in the worker)
   r0 = worker_eval(dict(REPRO), ('cylinder', 'box'), 'reproducer of C13:epa-buffer-overrun-iteration-limit')
   ck.label('epa-crash-reproducer:%s' % ('died' if r0 is None else 'survived'))
-  ck.run_hypothesis(test, scene_strategy(), ck.budget(350, 12000), name='contacts', shrink=False)
+  if only_req is not None:
+    # replay of a journalled worker request (crash reproducer)
+    pair = tuple(sorted(__import__('re').findall(r'type="(\w+)"', only_req['xml'])[:2], key=ORDER.get))
+    r = worker_eval(dict(only_req), pair, 'replay')
+    ck.case(nontrivial=True, key='replay', sample=dict(died=r is None))
+    ck.case(nontrivial=True, key='replay2')
+  elif only_case is not None:
+    try:
+      test(only_case)
+    except Violation as e:
+      ck.violation('Violation: %s' % e, dict(case=only_case), bucket=getattr(e, 'bucket', None))
+  else:
+    ck.run_hypothesis(test, scene_strategy(), ck.budget(350, 12000), name='contacts', shrink=False)
   worker.stop()
   ck.extra['tolerances'] = dict(K_FRAME=K_FRAME, K_PRIM=K_PRIM, K_CCD=K_CCD, BOXBOX_FUDGE=BOXBOX_FUDGE, DEEP=DEEP)
   ck.extra['worst_observed'] = {k: float(v) for k, v in calib.items()}
   ck.extra['boxbox'] = stats
+
+
+def replay(ck, body):
+  c = body.get('case') or {}
+  if isinstance(c, dict) and 'mocap_pos' in c:
+    main(ck, only_req={k: c[k] for k in ('xml', 'mocap_pos', 'mocap_quat', 'qpos', 'distmax') if k in c})
+  elif isinstance(c, dict) and isinstance(c.get('case'), dict):
+    main(ck, only_case=c['case'])
+  else:
+    raise ValueError('unsupported replay body')
 
 
 LEVEL = 'exploration'
